@@ -1,5 +1,6 @@
 import J5V.Rules.ProofsC12
 import J5V.Rules.ProofsMatcher
+import J5V.Rules.SrcFacts
 /-!
 # C12 — compiled validation constraints accept exactly what the j5s rules allow
 
@@ -415,5 +416,42 @@ example : WFRules {
 example : WFRules {
     name := "k", number := 2,
     schema := .single (.key (some .id62) (some { typ := .primary true }) none) } = true := by decide
+
+/-! ## Source-fact obligations (regenerated by `extract/rules.go` on every check)
+
+See `J5V/Rules/SrcFacts.lean`. The facts are re-extracted from the current
+`internal/j5s/j5convert/fields.go`; a changed guard, cast, slot or an unrecognised construct makes
+the obligation fail. -/
+section Src
+open J5V.Rules.Src
+set_option maxRecDepth 100000
+
+/-- **inclusivity table = model.** For each of the four integer formats and each member of the
+`less_than` / `greater_than` oneofs (`lte, lt, gte, gt`) the source has exactly one copy; it takes
+`st.Integer.Rules.Maximum` / `.Minimum` cast to the field's type, under `Rules != nil`, the
+format's case, `<bound> != nil` and one of the two recognised spellings of the test on
+`Exclusive<bound>`; and for each value of that flag (absent, false, true) the guard fires exactly
+when the model's `compileInt` picks that member. The member is stored in the matching oneof slot. -/
+theorem C12_src_inclusivity_table : writerInclusivityMatchesModel = true ∧ writerSlotsMatch = true := by decide
+
+/-- required: `node.Schema.Required`, forced for primary keys, written as
+`(buf.validate.field).required = true` (the model's `setRequired` / `psmPrimaryKey`) -/
+theorem C12_src_required_written : writerRequiredFacts = true := by decide
+
+/-- array / map: item (value) constraints are attached whenever they or the container rules exist,
+each container rule under `Rules != nil` alone (`wrapArray` / `wrapMap`); key formats map to
+uuid / the id62 pattern / the declared pattern / nothing (`keyStringC`) -/
+theorem C12_src_containers_and_keys : containerGuardFacts = true ∧ keyFormatFacts = true := by decide
+
+/-- every rule kind has a branch: each member of `schema.Field.type` is a case of `buildField`
+(`buildProperty` for array / map), and unknown members are errors -/
+theorem C12_src_branches : everyMemberHasWriterBranch = true ∧ writerDefaultsPresent = true := by decide
+
+/-- the rule fields the writer reads: every field of every `…Field.Rules` message except the
+explicit list (multipleOf, object min/maxProperties: ignored; float rules: compile error;
+timestamp bounds: not expressible in j5s text) -/
+theorem C12_src_rule_fields_read : everySchemaFieldIsReadOrListed = true := by decide
+
+end Src
 
 end J5V.Props.C12
